@@ -5,6 +5,9 @@ V = os.path.dirname(os.path.dirname(os.path.abspath(__file__)))
 props = [json.loads(l) for l in open(os.path.join(V, "properties.jsonl"))]
 na = json.load(open(os.path.join(V, "tools", "na_reasons.json")))
 checks, napp = [], []
+# a property with a listed (unrepaired) known finding is not proved: one of its obligations fails on the real code.  Its
+# check is then claimed at level "other" (proof of the remaining obligations + reproduced finding), never as "proof".
+open_findings = {k["property"] for k in json.load(open(os.path.join(V, "known_findings.json"))) if isinstance(k, dict)}
 served = []
 for p in props:
     pid = p["id"]
@@ -25,7 +28,7 @@ for p in props:
             "evidence_file": "/verif/evidence/%s.json" % pid,
             "replay_cmd_template": "./check %s --replay {path}" % pid,
             "engine": "pyvc",
-            "level_claimed": {"category": meta.get("CATEGORY", "proof"), "text": meta["LEVEL_TEXT"],
+            "level_claimed": {"category": "other" if pid in open_findings else meta.get("CATEGORY", "proof"), "text": meta["LEVEL_TEXT"],
                               "design_ref": meta.get("DESIGN_REF", "DESIGN.md section 7, " + pid)},
             "level_note": meta["LEVEL_NOTE"],
             "technique": meta.get("TECHNIQUE", "contract-based deductive verification: VCs generated from the real "
